@@ -33,6 +33,8 @@ fn main() {
         REPLAY_MODE.store(1, std::sync::atomic::Ordering::Relaxed);
         let suite = args[2].as_str();
         let prop = args[3].as_str();
+        PROP_NO.store(prop.trim_start_matches('C').parse().unwrap_or(0), std::sync::atomic::Ordering::Relaxed);
+        start_watchdog(25);
         let rest = &args[4..];
         let code = match suite.split_once(':') {
             Some(("fmt", f)) => fmt::replay(f, prop, rest),
@@ -54,6 +56,7 @@ fn main() {
     let prop = args.get(2).cloned().unwrap_or("all".into());
     let tier = args.get(3).cloned().unwrap_or("quick".into());
     let seed: u64 = args.get(4).and_then(|s| s.parse().ok()).unwrap_or(1);
+    PROP_NO.store(prop.trim_start_matches('C').parse().unwrap_or(0), std::sync::atomic::Ordering::Relaxed);
     let rep = match suite.split_once(':') {
         Some(("fmt", f)) => fmt::suite(f, &prop, &tier, seed),
         Some(("dimacs", "satlog")) => dimacs::satlog_suite(&prop, &tier, seed),
